@@ -35,8 +35,8 @@ class C06(Check):
             'depth d must have started (per program the enumeration over depths is exhaustive); non-trivial = a depth '
             'with >=2 holdable (gated / thread / process) nodes; distinct = digest of the program')
     floors = {'depth-with>=2-holdable': 0.6}
-    quick_examples = 400
-    thorough_examples = 2500
+    quick_examples = 3000
+    thorough_examples = 12000
     assumptions = ('a held node has entered its body (fake executor runs the body at submit, as a free worker would)',
                    'depth = longest dependency path from the input node')
 
@@ -233,8 +233,8 @@ class C13(Check):
             'as CancelledError only; non-trivial = the run ended (cancelled or failed) while >=1 completion was '
             'outstanding')
     floors = {'ended-with-outstanding': 0.4}
-    quick_examples = 120
-    thorough_examples = 250
+    quick_examples = 600
+    thorough_examples = 500
     assumptions = EngineCheck.assumptions
 
     def strategy(self, tier):
